@@ -9,10 +9,27 @@ NOTES = ["plain note", "with \"double\" quotes", "it's", "END LAYER MAP", "x = (
 
 def comment_text(c, salt):
     note = NOTES[(c["id"] * 7 + salt) % len(NOTES)]
+    # a third of the documents use banner comments: several comments with exactly the same text
+    if salt % 3 == 0 and (c["id"] + salt) % 2 == 0:
+        return "# ----------" if c["style"] == "hash" else "/* TODO */"
     if c["style"] == "hash":
         return "# c%d %s" % (c["id"], note)
     note = note.replace("*/", "* /")
+    if c["where"] == "above" and c.get("claimed") and (c["id"] + salt) % 3 == 1:
+        # a C comment spanning several lines, with an empty line inside
+        return "/* c%d %s\n\n   last line of c%d */" % (c["id"], note, c["id"])
     return "/* c%d %s */" % (c["id"], note)
+
+
+def canon(texts):
+    """comment id -> smallest id carrying the same text (multiset semantics by text)"""
+    first = {}
+    out = {}
+    for cid in sorted(texts):
+        t = texts[cid].strip()
+        first.setdefault(t, cid)
+        out[cid] = first[t]
+    return out
 
 
 def render(conc, hist, root, cms, salt=0, indent=2, nl="\n"):
@@ -53,7 +70,7 @@ def segment(s, src_texts):
     if not s:
         return []
     by_text = {}
-    for cid, t in src_texts.items():
+    for cid, t in sorted(src_texts.items()):
         by_text.setdefault(t.strip(), []).append(cid)
     memo = {}
 
